@@ -115,6 +115,12 @@ def shrink(oracle, sc, msg, budget=150):
     changed = True
     while changed and n < budget:
         changed = False
+        if 'ops' in cur and len(cur['ops']) > 0:
+            # operation histories: drop the last operation (earlier objects keep their numbers)
+            c = copy.deepcopy(cur); c['ops'] = c['ops'][:-1]; n += 1
+            if fails(c):
+                cur = c; changed = True
+                continue
         if 'trains' in cur and 'raw' not in cur:
             # drop a train
             if len(cur['trains']) > 2 and not cur.get('indices') and not cur.get('perm') and 'thr' not in cur:
